@@ -129,7 +129,7 @@ func (e *Engine) mapQuantifier(fr *Frame, st *State, args []Value, site ssa.Inst
 	}
 	p, sks, ctx := e.newPlaceholder(skSorts, "skk")
 	if os.Getenv("GOVC_DEBUG_Q") != "" {
-		fmt.Fprintf(os.Stderr, "mapquant new %s key %s\n", p.name, cacheKey)
+		fmt.Fprintf(os.Stderr, "mapquant new %s key %s\n  b=%s\n  facts=%s\n", p.name, cacheKey, clip(b.String(), 1500), clip(facts.String(), 600))
 	}
 	qi := &quantInfo{forall: true, p: p, q: qs[0], body: body, bodyW: bodyW, sk: sks[0], qs: qs, sks: sks, ctx: ctx}
 	e.quantVars[p.name] = qi
@@ -309,7 +309,9 @@ func (e *Engine) expandQuantifiers(fs []*Term, goalFs []*Term) []*Term {
 						})
 					}
 				}
-				cands = e.matchTuples(qi, groundAll)
+				// keys read on the goal side first: they are the ones the proof is about, and the
+				// number of instances per quantifier is capped
+				cands = append(e.matchTuples(qi, ground), e.matchTuples(qi, groundAll)...)
 			}
 			for _, ts := range cands {
 				tk := tupleKey(ts)
@@ -603,4 +605,11 @@ func polarities(fs []*Term, qv map[string]*quantInfo) map[int]int {
 		}
 	}
 	return res
+}
+
+func clip(s string, n int) string {
+	if len(s) > n {
+		return s[:n] + "..."
+	}
+	return s
 }
